@@ -9,7 +9,9 @@ RULE = (
     "metamorphic: (a) generated kernels as in C03 (register, flag, write-back and read-modify-write memory "
     "dependencies, both ISA flavours) x every rotation offset; (b) every shipped example/test kernel x shipped "
     "models of its ISA x every rotation offset (quick: 3 offsets per kernel incl. 1 and n-1; kernels of 50 and more "
-    "lines, which use the multi-process search, with offsets 1, 2, n-2, n-1 and one more). Oracle: the set of "
+    "lines, which use the multi-process search, with offsets 1, 2, n-2, n-1 and one more); (c) loops through memory "
+    "of 3-8 real instructions (pointer bumps, plain / read-modify-write / write-back stores, loads, uses, compare "
+    "and branch in any order) on shipped models x every rotation offset. Oracle: the set of "
     "reported cycles mapped to instruction identities (position modulo rotation) with their latencies, and the "
     "LCD figure, are equal for all rotations. Non-trivial: the kernel has >=1 LCD whose members straddle the "
     "rotation point (some member before and some at/after it). Distinct = distinct (kernel, model, offset)."
@@ -41,6 +43,37 @@ def compare(base, other, rot, tag):
         if base[k] != other[k]:
             raise Violation("rotation-latency:" + tag, "rotating the loop body by %d lines changes a cycle "
                             "latency" % rot, other[k], base[k])
+
+
+MEM_POOL = {
+    "x86": ["addq $8, %rbx", "addq $16, %rbx", "subq $8, %rbx", "incq %rbx",
+            "movq %rcx, {d}(%rbx)", "addq %rcx, {d}(%rbx)", "incq {d}(%rbx)", "subq %rcx, {d}(%rbx)",
+            "addq $1, {d}(%rbx)", "vmovsd %xmm0, {d}(%rbx)",
+            "movq {d}(%rbx), %rdx", "vmovsd {d}(%rbx), %xmm1", "addq {d}(%rbx), %rcx",
+            "addq %rdx, %rcx", "vaddsd %xmm1, %xmm0, %xmm0", "cmpq %rsi, %rbx", "jne .L3"],
+    "aarch64": ["add x2, x2, #8", "add x2, x2, #16", "sub x2, x2, #8",
+                "str x1, [x2, #{d}]", "str x1, [x2], #8", "str d0, [x2, #{d}]", "str x1, [x2, #8]!",
+                "ldr x3, [x2, #{d}]", "ldr x3, [x2, #8]!", "ldr d1, [x2, #{d}]", "ldr x3, [x2], #8",
+                "add x1, x1, x3", "fadd d0, d0, d1", "cmp x2, x5", "b.ne .L3"],
+}
+
+
+def memloops(isa, archs):
+    """loops through memory written with real instructions: pointer bumps, plain / read-modify-write / write-back
+    stores, loads and uses in any order"""
+    from hypothesis import strategies as st
+
+    @st.composite
+    def gen(draw):
+        n = draw(st.integers(3, 8))
+        lines = []
+        for _ in range(n):
+            t = draw(st.sampled_from(MEM_POOL[isa]))
+            d = draw(st.sampled_from([0, 8, 8, 16, -8] if isa == "x86" else [0, 8, 8, 16]))
+            lines.append(t.replace("{d}", str(d)))
+        return {"kind": "corpus", "arch": draw(st.sampled_from(archs)), "name": "memloop", "lines": lines,
+                "offsets": list(range(1, n))}
+    return gen()
 
 
 def check_case(case):
@@ -100,6 +133,11 @@ def check_corpus(case):
         st_ = any(min(ms) < rot <= max(ms) for ms in base)
         straddle = straddle or st_
         sub.append(([case["name"], arch, rot], st_))
+    if case["name"] == "memloop":
+        sub = [([lines, arch, rot], nt_) for (_, _, rot), nt_ in [(k_, v_) for k_, v_ in sub]]
+        return {"nontrivial": False, "sub": sub, "classes": ["memloop", "memloop:" + arch, "memloop:lcds=%s" % (
+            len(base) if len(base) < 4 else "4+")], "key": [lines, arch],
+            "sample": {"kernel": lines, "arch": arch, "lcds": sorted([sorted(k), v] for k, v in base.items())}}
     return {"nontrivial": False, "sub": sub, "classes": ["corpus", "corpus:" + arch],
             "key": [case["name"], arch, case["offsets"]],
             "sample": {"kernel": case["name"], "arch": arch, "offsets": case["offsets"],
@@ -113,6 +151,9 @@ def plan(tier, seed):
     archs = env.ALL_ARCHS if tier == "thorough" else ["zen1", "spr", "zen3", "tx2", "n1", "a72"]
     for j in range(6):
         shards.append({"kind": "corpus", "archs": archs[j::6], "tier": tier, "seed": seed})
+    m = {"quick": 70, "thorough": 2500}[tier]
+    for j, g in enumerate([["zen1", "icx"], ["hsw", "zen3"], ["tx2", "n1"], ["a64fx", "v2"]]):
+        shards.append({"kind": "memloop", "isa": env.isa_of(g[0]), "archs": g, "seed": seed * 1000 + 1450 + j, "n": m})
     return shards
 
 
@@ -144,6 +185,10 @@ def run_shard(spec):
                     continue
                 stats.record(case, info)
         return {"stats": stats.to_dict(), "failures": list(failures.values())}
+    if spec["kind"] == "memloop":
+        failures = hyp_search(ID, memloops(spec["isa"], spec["archs"]), check_case, stats, seed=spec["seed"],
+                              max_examples=spec["n"])
+        return {"stats": stats.to_dict(), "failures": failures}
     strat = deps.dep_cases(isa=spec["isa"], max_len=spec["max_len"], min_len=2, big_lines=False)
     failures = hyp_search(ID, strat, check_case, stats, seed=spec["seed"], max_examples=spec["n"])
     from checks import c03
